@@ -447,67 +447,98 @@ ATTR_SET = ("assign", "update")            # how its extended attributes are set
 ATTR_READ = ("from_msg", "unpack")         # how the object to decode into is created
 
 
-def run_attr_roundtrip(values, ext, make="init", setext="assign", read="from_msg"):
-    """values: {"size"/"uid"/...: int | float | None}; ext: list of (key, value) with str or bytes members.
-    Puts them on a NEW object (SFTPAttributes() or from_stat), packs with the real _pack, unpacks the bytes with the
-    real _unpack into another new object (_from_msg or SFTPAttributes()); returns one block record of SftpAttr_Trace.tla.
-    An object without extended attributes keeps the map it was created with."""
-    import types
-    from paramiko.sftp_attr import SFTPAttributes
-    Rec = recording_message_class()
-    abstract, fractional = {}, False
-    for name, attr, width in ATTR_FIELDS:
-        v = values.get(name)
-        if v is None:
-            abstract[name] = []
+class AttrRunner:
+    """runs attribute sets through the real _pack / _unpack one after the other in this process and keeps the objects of
+    the last block, so the next block can be put on a NEW object (origin "fresh") or on the object that was just encoded
+    ("same") or decoded ("decoded"), edited in between"""
+
+    def __init__(self):
+        self.enc = self.dec = self.last = None
+
+    def run(self, values, ext, make="init", setext="assign", read="from_msg", origin="fresh"):
+        """origin "fresh": values = {"size"/"uid"/...: int | float | None} is the whole set, ext = list of (key, value)
+        with str or bytes members.  origin "same" / "decoded": values = the EDITS ({name: new value, or None to clear the
+        field}; fields not named are not touched) and ext = None (map not touched) or the new list of pairs.
+        Returns one block record of SftpAttr_Trace.tla; attrs in it is the state of the object's fields when it is packed."""
+        import types
+        from paramiko.sftp_attr import SFTPAttributes
+        Rec = recording_message_class()
+        if origin != "fresh" and self.last is None:
+            raise ValueError("no object to keep")
+        fractional = any(v is not None and not isinstance(v, int) for v in values.values())
+        if origin == "fresh":
+            abstract = {name: ([] if values.get(name) is None else [limbs(int(values[name]), width)]) for name, _, width in ATTR_FIELDS}
+            abstract["ext"] = [[as_bytes_list(k), as_bytes_list(v)] for k, v in ext]
+            if make == "from_stat":
+                a = SFTPAttributes.from_stat(types.SimpleNamespace(**{attr: values.get(name) for name, attr, _ in ATTR_FIELDS}))
+            else:
+                a = SFTPAttributes()
+                for name, attr, width in ATTR_FIELDS:
+                    setattr(a, attr, values.get(name))
+            if ext:                        # an object without extended attributes keeps the map it was created with
+                if setext == "update":
+                    for k, v in ext:
+                        a.attr[k] = v
+                else:
+                    a.attr = dict(ext)
+            edits = 0
         else:
-            if not isinstance(v, int):
-                fractional = True
-            abstract[name] = [limbs(int(v), width)]
-    if make == "from_stat":
-        a = SFTPAttributes.from_stat(types.SimpleNamespace(**{attr: values.get(name) for name, attr, _ in ATTR_FIELDS}))
-    else:
-        a = SFTPAttributes()
-        for name, attr, width in ATTR_FIELDS:
-            setattr(a, attr, values.get(name))
-    if ext:
-        if setext == "update":
-            for k, v in ext:
-                a.attr[k] = v
-        else:
-            a.attr = dict(ext)
-    abstract["ext"] = [[as_bytes_list(k), as_bytes_list(v)] for k, v in ext]
-    aborted, err = "", None
-    w = Rec()
-    try:
-        with time_limit():
-            a._pack(w)
-    except (Exception, Hang) as e:
-        aborted, err = "pack", repr(e)
-    raw = w.asbytes()
-    r = Rec(raw)
-    d = SFTPAttributes()
-    if not aborted:
+            a = self.enc if origin == "same" else self.dec
+            base = self.last["attrs"] if origin == "same" else self.last["dec"]
+            abstract = {k: [list(x) for x in v] for k, v in base.items()}
+            fractional = fractional or (origin == "same" and self.last["fractional"])
+            for name, attr, width in ATTR_FIELDS:
+                if name in values:         # SetField / ClearField
+                    setattr(a, attr, values[name])
+                    abstract[name] = [] if values[name] is None else [limbs(int(values[name]), width)]
+            if ext is not None:
+                if setext == "update":
+                    a.attr.clear()
+                    a.attr.update(ext)
+                else:
+                    a.attr = dict(ext)
+                abstract["ext"] = [[as_bytes_list(k), as_bytes_list(v)] for k, v in ext]
+            edits = len({"uidgid" if n in ("uid", "gid") else "times" if n in ("atime", "mtime") else n for n in values}) + (ext is not None)
+        aborted, err = "", None
+        w = Rec()
         try:
             with time_limit():
-                if read == "from_msg":
-                    d = SFTPAttributes._from_msg(r)
-                else:
-                    d._unpack(r)
+                a._pack(w)
         except (Exception, Hang) as e:
-            aborted, err = "unpack", repr(e)
-    dec = {name: ([] if getattr(d, attr) is None else [limbs(getattr(d, attr), width)]) for name, attr, width in ATTR_FIELDS}
-    dec["ext"] = [[as_bytes_list(k), as_bytes_list(v)] for k, v in list(d.attr.items())[:64]]
-    return {"attrs": abstract, "fractional": fractional, "flags": limbs(a._flags, 2), "wtoks": w.toks[:64],
-            "rflags": limbs(d._flags, 2), "rtoks": r.toks[:64], "dec": dec, "unread": len(r.get_remainder()),
-            "aborted": aborted, "error": err,
-            "input": {"values": {k: v for k, v in values.items() if v is not None}, "ext": [[repr(k), repr(v)] for k, v in ext],
-                      "make": make, "setext": setext, "read": read}}
+            aborted, err = "pack", repr(e)
+        raw = w.asbytes()
+        r = Rec(raw)
+        d = SFTPAttributes()
+        if not aborted:
+            try:
+                with time_limit():
+                    if read == "from_msg":
+                        d = SFTPAttributes._from_msg(r)
+                    else:
+                        d._unpack(r)
+            except (Exception, Hang) as e:
+                aborted, err = "unpack", repr(e)
+        dec = {name: ([] if getattr(d, attr) is None else [limbs(getattr(d, attr), width)]) for name, attr, width in ATTR_FIELDS}
+        dec["ext"] = [[as_bytes_list(k), as_bytes_list(v)] for k, v in list(d.attr.items())[:64]]
+        rec = {"attrs": abstract, "fractional": fractional, "flags": limbs(a._flags, 2), "wtoks": w.toks[:64],
+               "rflags": limbs(d._flags, 2), "rtoks": r.toks[:64], "dec": dec, "unread": len(r.get_remainder()),
+               "aborted": aborted, "error": err, "origin": origin, "edits": edits,
+               "input": {"values": ({k: v for k, v in values.items() if v is not None} if origin == "fresh" else dict(values)),
+                         "ext": None if ext is None else [[repr(k), repr(v)] for k, v in ext],
+                         "make": make, "setext": setext, "read": read, "origin": origin}}
+        self.enc, self.dec, self.last = a, d, rec
+        return rec
+
+
+def run_attr_roundtrip(values, ext, make="init", setext="assign", read="from_msg"):
+    """one attribute set on new objects (see AttrRunner.run)"""
+    return AttrRunner().run(values, ext, make, setext, read)
 
 
 def run_attr_sequence(blocks):
-    """blocks: list of (values, ext, make, setext, read); one after the other in this process, every block on new objects"""
-    return {"blocks": [run_attr_roundtrip(*b) for b in blocks]}
+    """blocks: list of (values, ext, make, setext, read[, origin]); one after the other in this process"""
+    runner = AttrRunner()
+    return {"blocks": [runner.run(*b) for b in blocks]}
 
 
 # ============================================================================ C39  WireCodec
